@@ -125,6 +125,19 @@ def register_more(reg):
             ("spectrum_untouched_here", "unchanged('$d1:real')")],
         note='wsum(n) is by its defining axioms the documented sum over the eligible donors of n_d * PEC_d(ne, te, T_d)')
 
+    # ThermalCXLine._populate_cache: one arbitrary iteration of the donor loop - a species becomes a donor iff it is not the receiver species
+    # itself and is not fully ionised (whatever its charge relative to the receiver); its rate is the CX PEC of THAT donor onto the receiver
+    DG = {"elig()": "species != self._target_species and species.charge < species.element.atomic_number",
+          "R()": "self._rates", "last()": "as_seq(R()[length(R()) - 1])",
+          "pec()": "self._atomic_data.thermal_cx_pec(species.element, species.charge, self._line.element, receiver_charge, self._line.transition)"}
+    reg.contract(T, "ThermalCXLine._populate_cache", PROP, name='donor-iteration', flags={'loop_body': 0}, ghost=DG,
+        sorts={"species": "ref:Species!", "receiver_charge": "int"}, attrs={"_rates": "seq:ref"},
+        requires=["not is_none(self._rates)", "not is_none(self._atomic_data)", "not is_none(self._line)", "not is_none(species.element)"],
+        externals={'.thermal_cx_pec': {'kind': 'pure', 'result': 'ref:ThermalCXPEC', 'doc': 'atomic data provider: thermal CX PEC'}},
+        ensures=[("donor.appended_iff_eligible", "length(R()) == old(length(R())) + ite(elig(), 1, 0)"),
+                 ("donor.entry", "implies(elig(), same(last()[0], species) and same(last()[1], pec()))"),
+                 ("donor.earlier_entries_kept", "forall(q, 0 <= q and q < old(length(R())), same(R()[q], old(R()[q])))")])
+
     P = D + "total_radiated_power.pyx"
     reg.contract(P, "TotalRadiatedPower.emission", PROP, sorts=PT,
         attrs={"_hydrogen_species": "seq:ref"},
